@@ -1,4 +1,5 @@
 import RpmVerif.Props.C06
+import RpmVerif.Props.Pipeline
 /-!
 # C11 — builds with a source date are reproducible and clamped
 
@@ -9,7 +10,7 @@ What a theorem cannot show — that the REAL build has no other hidden input —
 correspondence tests (repeated in-process and cross-process builds).
 -/
 namespace RpmVerif.C11
-open RpmVerif.Hdr RpmVerif.Bld RpmVerif.Gen
+open RpmVerif.Hdr RpmVerif.Bld RpmVerif.Gen RpmVerif.Sign RpmVerif.Cpio
 
 /-- with a source date not in the future the clamped time IS the source date, whatever the clock says -/
 theorem clampNow_of_past {d now : Nat} (h : d ≤ now) : clampNow (some d) now = d := by
@@ -74,7 +75,120 @@ theorem sorted_perm_eq {l₁ l₂ : List Bytes} (h : l₁.Perm l₂) :
 theorem owners_order_independent {l₁ l₂ : List Bytes} (h : l₁.Perm l₂) : sortedDedup l₁ = sortedDedup l₂ := by
   simp only [sortedDedup, sorted_perm_eq h]
 
+/-! ### the clauses that had no theorem (AUDIT2 c35 - c37): signed builds, the signature's creation time, the archive -/
+
+/-- the unsigned package VALUE is the same for both clocks (not only its bytes) -/
+theorem build_eq (c : Cfg) {d now₁ now₂ : Nat} (hd : c.sourceDate = some d) (h1 : d ≤ now₁) (h2 : d ≤ now₂)
+    (sha256hex : Bytes → Bytes) (archive payload : Bytes) :
+    build c now₁ sha256hex archive payload = build c now₂ sha256hex archive payload := by
+  simp only [build, build_deterministic c hd h1 h2]
+
+/-- **`build_and_sign` is reproducible.** `build_and_sign` reads the clock twice (`now'` for the signature time, then
+`now` inside `build`); with a source date not later than any of the four readings, two runs return the same package and
+write the same bytes - for EVERY signature scheme whose `sign` is a function of (key, data, time), which is what
+"a deterministic key type" means (Ed25519, RSA PKCS#1 v1.5; `SigScheme.sign` is such a function by construction). -/
+theorem build_sign_bytes_deterministic (S : SigScheme) (c : Cfg) {d now₁ now₂ now₁' now₂' : Nat}
+    (hd : c.sourceDate = some d) (h1 : d ≤ now₁) (h2 : d ≤ now₂) (h1' : d ≤ now₁') (h2' : d ≤ now₂')
+    (sha256 : Bytes → Bytes) (archive payload : Bytes) (k : S.Key) :
+    Pipeline.buildAndSign sha256 c now₁ archive payload S now₁' k = Pipeline.buildAndSign sha256 c now₂ archive payload S now₂' k
+    ∧ writePackage (Pipeline.buildAndSign sha256 c now₁ archive payload S now₁' k)
+        = writePackage (Pipeline.buildAndSign sha256 c now₂ archive payload S now₂' k) := by
+  have e : Pipeline.buildAndSign sha256 c now₁ archive payload S now₁' k
+      = Pipeline.buildAndSign sha256 c now₂ archive payload S now₂' k := by
+    simp only [Pipeline.buildAndSign, hd, clampNow_of_past h1', clampNow_of_past h2',
+      build_eq c hd h1 h2 (Pipeline.hexOf sha256) archive payload]
+  exact ⟨e, by rw [e]⟩
+
+
+/-- **no signature creation time later than the source date.** For a `pgp::Signer` (`PgpScheme`: only sealing and
+parsing of packets are abstract) the signature header `build_and_sign` installs holds ONE signature `sig` - base64 under
+RPMSIGTAG_OPENPGP, raw under the key's legacy tag -, `sig` is the sealed configuration `Signer::sign` assembles for the
+time `t = clampNow source_date now'` (C10 `config_created_eq`), reading the packet back gives creation time `t`
+(`ParseSeal`), and `t ≤ source date` for EVERY clock reading `now'` (`clampNow_le`) - also when the source date lies
+in the future, where `t` is the clock. -/
+theorem sigtime_clamped (P : PgpScheme) (hp : P.ParseSeal) (c : Cfg) {d : Nat} (hd : c.sourceDate = some d)
+    (sha256 : Bytes → Bytes) (now now' : Nat) (archive payload : Bytes) (k : P.Key) :
+    ∃ (t : Nat) (sig : Bytes),
+      t = clampNow (some d) now' ∧ t ≤ d ∧
+      sig = P.sealSig k (writeHeader (build c now (Pipeline.hexOf sha256) archive payload).md.header) (P.configOf k t) ∧
+      (Pipeline.buildAndSign sha256 c now archive payload P.toSigScheme now' k).md.signature =
+        fromEntries [(SigTag.RPMSIGTAG_OPENPGP, .strArray [P.b64enc sig]), (signerLegacyTag (P.alg k), .bin sig),
+          (SigTag.RPMSIGTAG_SHA256, .str (shaHex sha256 (writeHeader (build c now (Pipeline.hexOf sha256) archive payload).md.header)))]
+          SigTag.HEADER_SIGNATURES ∧
+      (P.parse sig).bind SigConfig.created = some (t : Int) := by
+  refine ⟨clampNow (some d) now', _, rfl, clampNow_le d now', rfl, ?_, ?_⟩
+  · simp only [Pipeline.buildAndSign, signOp, hd]
+    rfl
+  · rw [hp k _ (clampNow (some d) now')]
+    simp only [Option.bind_some, PgpScheme.configOf]
+    exact C10.config_created_eq _ _ _ _
+
+/-- every cpio entry `prepare_data` writes in the standard form carries its position as inode number (counted from
+`ino`), the file's mode word, the builder's uid / gid - and NOTHING else: `c_mtime`, the device numbers are 0, the
+link count is 1. Neither the clock nor a source file's mtime reaches the archive. -/
+theorem archive_entries_spec (uid gid : Nat) (files : List FileIn) (ino : Nat) :
+    (builderEntriesFrom uid gid ino files).length = files.length ∧
+    ∀ k (hk : k < files.length), (builderEntriesFrom uid gid ino files)[k]? =
+      some ({ name := files[k].path, ino := ino + k, mode := files[k].mode, uid := uid, gid := gid, nlink := 1, mtime := 0,
+              devMajor := 0, devMinor := 0, rdevMajor := 0, rdevMinor := 0 }, files[k].content) := by
+  induction files generalizing ino with
+  | nil => exact ⟨rfl, fun k hk => absurd hk (by simp)⟩
+  | cons f r ih =>
+    obtain ⟨l, e⟩ := ih (ino + 1)
+    refine ⟨by simp [builderEntriesFrom, l], fun k hk => ?_⟩
+    cases k with
+    | zero => simp [builderEntriesFrom, builderMeta]
+    | succ k =>
+      have := e k (by simpa using hk)
+      simp only [builderEntriesFrom, List.getElem?_cons_succ, this, List.getElem_cons_succ]
+      have : ino + 1 + k = ino + (k + 1) := by omega
+      rw [this]
+
+/-- **the whole chain is clock-free.** The archive is `C09.archiveFor c uid gid fes` - a function of the builder's
+files, contents, uid / gid and the large-file switch in which no clock value and no file mtime occurs (every entry's
+`c_mtime` is 0 ≤ source date: `archive_entries_spec`) - and the payload is what a compressor that is a FUNCTION of its
+input (`compress`; tested for every codec by the repeated builds, not proved) makes of it. With a source date not later
+than either clock reading the written package is byte-identical. -/
+theorem archive_clock_free (c : Cfg) {d now₁ now₂ : Nat} (hd : c.sourceDate = some d) (h1 : d ≤ now₁) (h2 : d ≤ now₂)
+    (sha256hex : Bytes → Bytes) (compress : Bytes → Bytes) (uid gid : Nat) (fes : List (FileE × Bytes)) :
+    writePackage (build c now₁ sha256hex (C09.archiveFor c uid gid fes) (compress (C09.archiveFor c uid gid fes)))
+      = writePackage (build c now₂ sha256hex (C09.archiveFor c uid gid fes) (compress (C09.archiveFor c uid gid fes)))
+    ∧ (∀ e ∈ builderEntriesFrom uid gid 1 (fes.map C09.toFileIn), e.1.mtime = 0 ∧ e.1.mtime ≤ d) := by
+  refine ⟨build_bytes_deterministic c hd h1 h2 sha256hex _ _, fun e he => ?_⟩
+  obtain ⟨k, hk, rfl⟩ := List.getElem_of_mem he
+  obtain ⟨l, hspec⟩ := archive_entries_spec uid gid (fes.map C09.toFileIn) 1
+  have := hspec k (by omega)
+  rw [List.getElem?_eq_getElem hk] at this
+  simp only [Option.some.injEq] at this
+  rw [this]
+  exact ⟨rfl, Nat.zero_le _⟩
+
+/-- **the mtimes `get_file_entries` reports** for the package `build` returns are clamped: every entry's `modified_at`
+is ≤ the source date (C06 `readback_file_entries_build` composed with the clamp) -/
+theorem file_entry_mtimes_clamped (c : Cfg) {d : Nat} (hd : c.sourceDate = some d) (now : Nat) (sha256hex : Bytes → Bytes)
+    (archive payload : Bytes) (hdir : ∀ f ∈ c.files, f.dir ∈ c.directories) (hdig : C06.DigestsOk c) :
+    ∃ es, Acc.getFileEntries (build c now sha256hex archive payload).md.signature (build c now sha256hex archive payload).md.header
+        = .ok es ∧ es.length = c.files.length ∧ ∀ e ∈ es, e.mtime ≤ d := by
+  refine ⟨_, C06.readback_file_entries_build c now sha256hex archive payload hdir hdig, by simp, fun e he => ?_⟩
+  obtain ⟨f, _, rfl⟩ := List.mem_map.mp he
+  exact (C06.clamp_spec c.sourceDate f.mtime).2 d hd
+
 /-! ### non-vacuity -/
+-- a signed build of the sample configuration (source date 1.6e9) at two pairs of clock readings: one package
+example : Pipeline.buildAndSign C10.tSha256 C06.sampleCfg 1700000000 [1] [2] C10.T 1700000001 (2 : UInt8)
+    = Pipeline.buildAndSign C10.tSha256 C06.sampleCfg 1800000000 [1] [2] C10.T 1900000000 (2 : UInt8) :=
+  (build_sign_bytes_deterministic C10.T C06.sampleCfg (d := 1600000000) rfl (by decide) (by decide) (by decide) (by decide)
+    C10.tSha256 [1] [2] (2 : UInt8)).1
+-- the toy OpenPGP scheme reads back the clamped creation time from the packet `build_and_sign` stores
+example : ∃ t sig, t = 1600000000 ∧ (C10.toyP.parse sig).bind SigConfig.created = some (t : Int) ∧
+    sig = C10.toyP.sealSig (2 : UInt8) (writeHeader (build C06.sampleCfg 1700000000 (Pipeline.hexOf C10.tSha256) [1] [2]).md.header)
+      (C10.toyP.configOf (2 : UInt8) t) := by
+  obtain ⟨t, sig, h1, _, h3, _, h5⟩ := sigtime_clamped C10.toyP C10.toyP_parseSeal C06.sampleCfg (d := 1600000000) rfl
+    C10.tSha256 1700000000 1700000001 [1] [2] (2 : UInt8)
+  exact ⟨t, sig, by rw [h1]; decide, h5, h3⟩
+-- two files: inode numbers 1 and 2, c_mtime 0
+example : (builderEntriesFrom 0 0 1 [⟨[46, 47, 97], 33188, [1, 2]⟩, ⟨[46, 47, 98], 33188, []⟩]).map (fun e => (e.1.ino, e.1.mtime)) = [(1, 0), (2, 0)] := by decide
+
 example : clampNow (some 1600000000) 1700000000 = 1600000000 ∧ clampNow (some 1600000000) 1900000000 = 1600000000 := by decide
 -- a source date in the future is outside the guard: the clock then shows through (and the clamp still holds)
 example : clampNow (some 2000000000) 1700000000 = 1700000000 := by decide
